@@ -73,7 +73,10 @@ MainWait == /\ mainpc = "wait" /\ wg = 0 /\ mainpc' = "decide"
 \* sequential workflow computes from the same samples").
 MainDecide == /\ mainpc = "decide"
               /\ IF SurfaceError /\ srcErr THEN verdict' = FALSE /\ err' = TRUE
-                 ELSE /\ verdict' = (\A i \in 0..(S-1) : slots[i] # <<>> /\ IsSample(slots[i]))
+                 \* an unwritten slot (Q = 0.0, no pass counted) is within the slack of the decision rule
+                 \* (19 of 20, 48 of 50), so by itself it does not turn the verdict: completeness is
+                 \* the business of JudgedSet / FaultMeansFalse, not of the decision
+                 ELSE /\ verdict' = (\A i \in 0..(S-1) : slots[i] # <<>> => IsSample(slots[i]))
                       /\ err' = ~verdict'
               /\ mainpc' = "returned" /\ closed' = TRUE
               /\ UNCHANGED <<chan, sent, wg, pc, job, buf, filled, pos, holder, srcErr, failed, slots, writes>>
